@@ -88,6 +88,8 @@ func modelHasMethod(kind, m string) bool {
 		return m == "Seal" || m == "Open" || m == "NonceSize" || m == "Overhead"
 	case "block":
 		return m == "BlockSize" || m == "Encrypt" || m == "Decrypt"
+	case "ecdhcurve":
+		return m == "GenerateKey"
 	}
 	return false
 }
@@ -174,6 +176,12 @@ func sameChunks(a, b []hashChunk) bool {
 func (in *Interp) modelMethod(mo *ModelObj, name string, args []Value) Value {
 	tb := in.tb
 	switch mo.Kind {
+	case "ecdhcurve":
+		if name == "GenerateKey" {
+			in.ghost.counts["ecdhkey"]++
+			key := in.newModel("ecdhpriv", in.ghost.counts["ecdhkey"])
+			return TupleV{Ptr{Obj: in.newObj(key, nil, "ecdhpriv")}, IfaceV{}}
+		}
 	case "error":
 		ed := mo.Data.(*errData)
 		switch name {
@@ -650,6 +658,7 @@ func registerNatives(in *Interp) {
 	registerClassAdNatives(in)
 	registerTimeNatives(in)
 	registerPathNatives(in)
+	registerLocksetNatives(in)
 }
 
 // bufferAppend implements the write side of bytes.Buffer on its real fields.
